@@ -55,15 +55,63 @@ def boot():
     from sqlparse import keywords
     for rx, _tt in keywords.SQL_REGEX:
         re.compile(rx, re.IGNORECASE | re.UNICODE)
+    with_lines()        # computed once here, inherited by every fork
     _booted = True
     return sqlparse
 
 
+_pkg_files = None
+
+
 def pkg_files():
     """Sorted list of the package's source files (for stable location ids)."""
+    global _pkg_files
+    if _pkg_files is None:
+        _pkg_files = _walk_pkg()
+    return _pkg_files
+
+
+def _walk_pkg():
     out = []
     for root, _dirs, files in os.walk(PKG):
         for fn in files:
             if fn.endswith('.py'):
                 out.append(os.path.join(root, fn))
     return sorted(out)
+
+
+_with_lines = None
+
+
+def with_lines():
+    """{filename: set(line numbers)} of the header lines of every ``with``
+    statement in the package.  CPython attributes the *normal-exit* call of
+    ``__exit__`` to the header line and that code is not covered by the
+    statement's own exception handler, so an exception raised from a trace
+    callback at such a line event would skip ``__exit__`` altogether -- an
+    artefact no real asynchronous exception produces (the eval loop only
+    delivers them at calls, returns and backward jumps).  Injected
+    interrupts are therefore deferred to the next traced line."""
+    global _with_lines
+    if _with_lines is None:
+        import ast
+        out = {}
+        for fn in pkg_files():
+            try:
+                with open(fn, encoding='utf-8') as f:
+                    tree = ast.parse(f.read())
+            except (OSError, SyntaxError, ValueError):
+                continue
+            lines = set()
+            for node in ast.walk(tree):
+                if isinstance(node, (ast.With, ast.AsyncWith)):
+                    last = max(getattr(it.context_expr, 'end_lineno',
+                                       node.lineno) for it in node.items)
+                    for it in node.items:
+                        if it.optional_vars is not None:
+                            last = max(last, getattr(it.optional_vars,
+                                                     'end_lineno', last))
+                    lines.update(range(node.lineno, last + 1))
+            out[fn] = frozenset(lines)
+        _with_lines = out
+    return _with_lines
